@@ -274,7 +274,7 @@ func sameVal(v, w ssa.Value) bool { return unconv(v) == unconv(w) }
 func isFieldLoadOn(f *types.Var, base ssa.Value) VPat {
 	return func(v ssa.Value) bool {
 		lf, b := loadedField(v)
-		return lf == f && (base == nil || b == base)
+		return lf == f && (base == nil || b == base || resolveParam(b) == resolveParam(base))
 	}
 }
 
@@ -311,4 +311,21 @@ func (c *RuleCtx) deliverFn() *ssa.Function {
 		panic(unresolved{"the unique call site of Stream.handleData"})
 	}
 	return enclosingNamed(sites[0].Fn)
+}
+
+// resolveParam: a parameter of a private helper with a single call site stands
+// for the argument passed there (followed up the call chain).
+func resolveParam(v ssa.Value) ssa.Value {
+	for d := 0; d < 4 && v != nil; d++ {
+		p, ok := v.(*ssa.Parameter)
+		if !ok {
+			return v
+		}
+		a := through(p)
+		if a == nil {
+			return v
+		}
+		v = unconv(a)
+	}
+	return v
 }
